@@ -261,3 +261,54 @@ Proof.
   destruct (parse_check ops) as [[]|er|sx] eqn:E; cbn [bind]; try discriminate; [apply assemble_no_panic|].
   intros _. exact (parse_check_no_panic _ _ E).
 Qed.
+
+(* ---------- completeness of emission: operands in range => bytes ---------- *)
+Section EmitComplete.
+  Variable macros : mtable.
+
+  Lemma emit_item_complete : forall labels p,
+    operand_in_range macros labels p -> exists b, emit_item macros labels (fst p) (snd p) = Ok b.
+  Proof.
+    intros labels [it w] H. unfold operand_in_range in H. cbn [fst snd] in *.
+    destruct it as [l|c [e|]|e|raw]; cbn [emit_item]; eauto.
+    - destruct H as (v & Ev & Hr). rewrite Ev. rewrite concretize_imm_accepts by exact Hr. cbn [bind]. eauto.
+    - destruct H as (v & Ev & Hr). rewrite Ev. rewrite concretize_imm_accepts by exact Hr. cbn [bind]. eauto.
+  Qed.
+
+  Lemma emit_complete : forall labels items ws,
+    length ws = count_push items ->
+    Forall (operand_in_range macros labels) (with_widths items ws) ->
+    exists bs, emit macros labels items ws = Ok bs.
+  Proof.
+    unfold count_push. intros labels. induction items as [|it r IH]; intros ws Hl H; cbn [emit]; [eauto|].
+    destruct it as [l|c imm|e|raw]; cbn [with_widths filter length] in *.
+    - inversion H as [|? ? Hp Hr]; subst. destruct (emit_item_complete _ _ Hp) as [a Ea]. cbn [fst snd] in Ea. rewrite Ea.
+      destruct (IH ws Hl Hr) as [b Eb]. rewrite Eb. cbn [bind]. eauto.
+    - inversion H as [|? ? Hp Hr]; subst. destruct (emit_item_complete _ _ Hp) as [a Ea]. cbn [fst snd] in Ea. rewrite Ea.
+      destruct (IH ws Hl Hr) as [b Eb]. rewrite Eb. cbn [bind]. eauto.
+    - destruct ws as [|w ws']; [discriminate|]. cbn [length] in Hl.
+      inversion H as [|? ? Hp Hr]; subst. destruct (emit_item_complete _ _ Hp) as [a Ea]. cbn [fst snd] in Ea. rewrite Ea.
+      destruct (IH ws' ltac:(lia) Hr) as [b Eb]. rewrite Eb. cbn [bind]. eauto.
+    - inversion H as [|? ? Hp Hr]; subst. destruct (emit_item_complete _ _ Hp) as [a Ea]. cbn [fst snd] in Ea. rewrite Ea.
+      destruct (IH ws Hl Hr) as [b Eb]. rewrite Eb. cbn [bind]. eauto.
+  Qed.
+
+  (* backpatch_and_emit succeeds EXACTLY when no used label is undeclared and every operand
+     evaluates to a value in range under the labels the layout decides *)
+  Theorem finish_scope_ok_iff : forall st,
+    (exists bytes, finish_scope macros st = Ok bytes) <->
+    (a_undeclared st = [] /\
+     exists w pos, layout macros (a_ready st) = Ok (w, pos) /\
+       Forall (operand_in_range macros (lenv pos)) (with_widths (a_ready st) w)).
+  Proof.
+    intros st. unfold finish_scope. split.
+    - intros [bytes H]. destruct (a_undeclared st); [|discriminate]. split; [reflexivity|].
+      destruct (layout macros (a_ready st)) as [[w pos]|er|s] eqn:El; cbn [bind fst snd] in H; try discriminate.
+      exists w, pos. split; [reflexivity|].
+      pose proof (emit_each macros _ _ _ _ H) as Hall.
+      eapply Forall_impl; [|exact Hall]. intros p [b Hb]. eapply emitted_in_range; exact Hb.
+    - intros (Hu & w & pos & El & Hall). rewrite Hu, El. cbn [bind fst snd].
+      apply emit_complete; [|exact Hall].
+      unfold layout in El. eapply layout_loop_length; [|exact El]. apply repeat_length.
+  Qed.
+End EmitComplete.
